@@ -1,4 +1,4 @@
-(* Extraction for C03: the wire specification, the spec-side per-target description, and the code-shaped observables over the shipped
+(* Extraction for C03: the wire specification, the spec-side per-target description, and the TARGET-SHAPED observables over the shipped
    primitive models (ExtrOcamlBasic only). *)
 From Verif Require Import Wire Walker TargetsC03 ObsC03.
 Require Extraction ExtrOcamlBasic.
